@@ -206,6 +206,18 @@ func checkSweepBeforeSelect(c *Ctx, rule string) {
 	for _, ec := range expCalls {
 		through = append(through, ec)
 	}
+	// the sweep expanded into the operation itself: the loop (or statement) that releases expired leases
+	for i := range sf.Events {
+		e := &sf.Events[i]
+		if e.Fn != fn || e.Kind != "store" || e.ToStr != "{queued}" || e.From != ssParse("leased") {
+			continue
+		}
+		if h := loopHeaderOf(e.Instr.Block()); h != nil && !loopBody(h)[leaseStore.Block()] {
+			through = append(through, h.Instrs[0])
+		} else if h == nil {
+			through = append(through, e.Instr)
+		}
+	}
 	okp, path := p.MustPassInstr(fn, leaseStore, through)
 	if okp && len(through) > 0 {
 		c.Ok(rule, "memory.Dequeue:sweep-dominates-candidate-selection", p.InstrPos(leaseStore), "expired leases are released before candidates are examined")
@@ -597,6 +609,14 @@ func checkVisibilityTimes(c *Ctx, rule string) {
 			continue
 		}
 		isNack := strings.HasPrefix(e.Fn.Name(), "Nack")
+		if isNack {
+			// the release of an expired lease inside a nack operation is not the nack itself
+			if exp := expiredEdges(e.Fn); len(exp) > 0 {
+				if only, _ := p.MustPass(e.Fn, st, exp); only {
+					isNack = false
+				}
+			}
+		}
 		if call, ok := val.(*ssa.Call); ok && calleeIs(call, "time", "Time", "Add") {
 			c.Check(isNack, rule, key+"=now+delay", p.InstrPos(st), "NextRunAt = now.Add(delay)", "non-nack transition to queued delays visibility with Add()")
 		} else {
